@@ -83,11 +83,9 @@ class C01(Property):
             combos = rng.sample(combos, 150)
         for (k1, t1, k2, t2) in combos:
             s = nu.Scenario()
-            # an empty trusted list means "trust own key only" (Crypto::new); the harness builds contexts directly, so spell it out
-            tt1 = t1 if t1 else [k1]
-            tt2 = t2 if t2 else [k2]
-            s.node(1, mode="tun-router", claims=["0a000100/24"], key=k1, trusted=tt1)
-            s.node(2, mode="tun-router", claims=["0a000200/24"], key=k2, trusted=tt2)
+            # the keys are configured as text and go through Crypto::new: an empty trusted list means "trust own key only"
+            s.node(1, mode="tun-router", claims=["0a000100/24"], key=k1, trusted=t1)
+            s.node(2, mode="tun-router", claims=["0a000200/24"], key=k2, trusted=t2)
             d = rng.choice(["12", "21", "both"])
             if d in ("12", "both"):
                 s.add("C.1.2")
@@ -117,8 +115,9 @@ class C01(Property):
 
     def _trust(self, line):
         nodes = [t.split(".") for t in line.split() if t.startswith("N.")]
-        k1, t1 = int(nodes[0][7]), [int(x) for x in nodes[0][8].split("+")]
-        k2, t2 = int(nodes[1][7]), [int(x) for x in nodes[1][8].split("+")]
+        k1, t1 = int(nodes[0][7]), [int(x) for x in nodes[0][8].split("+") if x != "-"]
+        k2, t2 = int(nodes[1][7]), [int(x) for x in nodes[1][8].split("+") if x != "-"]
+        t1, t2 = t1 or [k1], t2 or [k2]          # no trusted key configured: own key only
         return (k2 in t1) and (k1 in t2)
 
     def oracle(self, line, impl_out):
